@@ -609,7 +609,16 @@ impl<'a> Sem<'a> {
                 9 if !self.visible_of_type(&Ty::List(Box::new(Ty::Int))).is_empty() && self.on("list-index") => {
                     let st = self.here();
                     self.value_atom_list_int(depth);
-                    self.w("[0]");
+                    // the index is a value of its own: a literal, or a visible integer
+                    let ints = self.visible_of_type(&Ty::Int);
+                    if !ints.is_empty() && self.rng.chance(1, 2) && self.on("list-index-by-name") {
+                        let (n, d) = ints[self.rng.below(ints.len())].clone();
+                        self.w("[");
+                        self.ident(&n, Role::Use(d));
+                        self.w("]");
+                    } else {
+                        self.w("[0]");
+                    }
                     self.span("list-index", st);
                 }
                 10 if self.on("head") => {
